@@ -136,6 +136,9 @@ func (c *Ctx) authnRedirect(endpoint, relay, keyName, method string, idp *saml.I
 		if method != "" && !knownMethod(method) {
 			why = append(why, fmt.Sprintf("key=unknown-method-accepted a redirect request was produced under the unknown signature method %q instead of an error", method))
 		}
+		if fam := map[bool]string{true: "ecdsa", false: "rsa"}[strings.HasPrefix(keyName, "ec")]; method != "" && knownMethod(method) && !strings.Contains(method, "#"+fam+"-") {
+			why = append(why, fmt.Sprintf("key=method-key-mismatch-accepted a redirect request was produced under %s with a key of the %s family instead of an error", method, fam))
+		}
 		if m := rawParam(raw, "SAMLRequest"); len(m) != 1 {
 			why = append(why, fmt.Sprintf("key=redirect-params %d SAMLRequest parameters", len(m)))
 		} else {
@@ -603,6 +606,15 @@ func (c *Ctx) genC12() {
 	}
 	for _, nid := range relayStates {
 		c.logoutRedirect(idpEndpoints[0], "rs", nid, "sp", "", false)
+	}
+	// long name IDs of multi-byte characters, shifted byte by byte: whatever internal buffer size the serialisation goes
+	// through (4 kB in etree's writer), some character straddles its boundary in one of the variants
+	for _, ch := range []string{"é", "€", "𝄞", "\u0085", "\u2028"} {
+		for pad := 0; pad < 4; pad++ {
+			nid := strings.Repeat("a", pad) + strings.Repeat(ch, 9000/len(ch))
+			c.count("c12-long-nameid", fmt.Sprintf("%d-byte chars", len(ch)))
+			c.logoutRedirect(idpEndpoints[0], "rs", nid, "sp", "", false)
+		}
 	}
 	n := 300
 	if !c.quick() {
